@@ -60,8 +60,8 @@ func (c *c13) Phases(tier string) []PhaseSpec {
 		}
 	}
 	return []PhaseSpec{
-		{Name: "hist", Runs: 4000, Note: "API-call histories vs fresh-process references"},
-		{Name: "sess", Runs: 3000, Note: "compiler sessions vs definition-store readings"},
+		{Name: "hist", Runs: 6000, Note: "API-call histories vs fresh-process references"},
+		{Name: "sess", Runs: 30000, Note: "compiler sessions vs definition-store readings"},
 	}
 }
 
@@ -78,11 +78,11 @@ func (c *c13) Assumptions() []string {
 }
 
 func (c *c13) ProbeNames() []string {
-	return []string{"hist_pair_repeated_after_other_compile", "hist_recompiled_same_source", "hist_old_handle_run_after_recompile", "sess_def_referenced_from_two_commands", "sess_def_referenced_twice_in_command", "sess_nested_definition", "sess_subroutine_reading_compared", "sess_or_in_body_referenced_twice"}
+	return []string{"hist_pair_repeated_after_other_compile", "hist_recompiled_same_source", "hist_old_handle_run_after_recompile", "sess_def_referenced_from_two_commands", "sess_def_referenced_twice_in_command", "sess_nested_definition", "sess_subroutine_reading_compared", "sess_or_in_body_referenced_twice", "sess_reference_inside_loop_min2"}
 }
 
 func (c *c13) SweepPrefix(string, uint64) []uint64 { return nil }
-func (c *c13) SweepCount(string) uint64           { return 0 }
+func (c *c13) SweepCount(string) uint64            { return 0 }
 
 func textVariants(text string) []string {
 	half := text[:len(text)/2]
@@ -402,9 +402,81 @@ func (c sessCmd) render(f func(i int, name string) string) string {
 	return s
 }
 
-func genCmd(t *Tape, defs []sessDef) sessCmd {
+type cmdGen struct {
+	defs        []sessDef
+	refs        []string
+	firstUnderQ bool // some definition's first occurrence sits under a quantifier
+	seen        map[string]bool
+	minTwoLoop  bool // a reference sits inside a loop that must iterate at least twice
+}
+
+var cmdQuants = []struct {
+	text   string
+	fewest bool
+	min2   bool
+}{
+	{"at least 1", true, false}, {"maybe", false, false}, {"exactly 2", false, true}, {"at least 2", true, true},
+	{"between 2 and 3", true, true}, {"at most 2", true, false}, {"exactly 3", false, true}, {"between 1 and 2", true, false},
+}
+
+func (g *cmdGen) ref(t *Tape, underQ, min2 bool) string {
+	if len(g.refs) >= 6 {
+		return sessLits[t.Draw(len(sessLits))]
+	}
+	n := g.defs[t.Draw(len(g.defs))].Name
+	// bias towards a name that was used already: repeated references are the point
+	if len(g.refs) > 0 && t.Draw(2) == 1 {
+		n = g.refs[t.Draw(len(g.refs))]
+	}
+	if !g.seen[n] {
+		g.seen[n] = true
+		if underQ {
+			g.firstUnderQ = true
+		}
+	}
+	if min2 {
+		g.minTwoLoop = true
+	}
+	g.refs = append(g.refs, n)
+	return fmt.Sprintf("%%R%d", len(g.refs)-1)
+}
+
+func (g *cmdGen) seq(t *Tape, depth int, underQ, min2 bool) string {
+	n := t.Range(1, 3)
+	var parts []string
+	for i := 0; i < n; i++ {
+		parts = append(parts, g.item(t, depth, underQ, min2))
+	}
+	return strings.Join(parts, " ")
+}
+
+func (g *cmdGen) item(t *Tape, depth int, underQ, min2 bool) string {
+	max := 5
+	if depth <= 0 {
+		max = 2
+	}
+	switch t.Draw(max) {
+	case 0:
+		return g.ref(t, underQ, min2)
+	case 1:
+		return sessLits[t.Draw(len(sessLits))]
+	case 2:
+		return "(" + g.seq(t, depth-1, underQ, min2) + ")"
+	case 3:
+		q := cmdQuants[t.Draw(len(cmdQuants))]
+		s := q.text + " (" + g.seq(t, depth-1, true, min2 || q.min2) + ")"
+		if q.fewest && t.Draw(4) == 1 {
+			s += " fewest"
+		}
+		return s
+	default:
+		return "((" + g.seq(t, depth-1, underQ, min2) + ") or (" + g.seq(t, depth-1, underQ, min2) + "))"
+	}
+}
+
+func genCmd(t *Tape, defs []sessDef, ctx *RunCtx) sessCmd {
 	pick := func() string { return defs[t.Draw(len(defs))].Name }
-	switch t.Draw(10) {
+	switch t.Draw(16) {
 	case 0:
 		return sessCmd{Tmpl: "find all %R0", Refs: []string{pick()}}
 	case 1:
@@ -425,8 +497,23 @@ func genCmd(t *Tape, defs []sessDef) sessCmd {
 	case 8:
 		n := pick()
 		return sessCmd{Tmpl: "find all %R0 %R1 %R2", Refs: []string{n, pick(), n}}
-	default:
+	case 9:
 		return sessCmd{Tmpl: "find skip 1 take 2 %R0 maybe ('b' %R1)", Refs: []string{pick(), pick()}}
+	default:
+		g := &cmdGen{defs: defs, seen: map[string]bool{}}
+		body := g.seq(t, 2, false, false)
+		if len(g.refs) == 0 {
+			body = g.ref(t, false, false) + " " + body
+		}
+		head := []string{"find all ", "find top 2 ", "replace all ", "find last 2 "}[t.Draw(4)]
+		tail := ""
+		if head == "replace all " {
+			tail = " with '<' value '>'"
+		}
+		if g.minTwoLoop {
+			ctx.Count("sess_reference_inside_loop_min2", 1)
+		}
+		return sessCmd{Tmpl: head + body + tail, Refs: g.refs, Quantfied: g.firstUnderQ}
 	}
 }
 
@@ -513,7 +600,7 @@ func (c *c13) runSession(ctx *RunCtx) *RunResult {
 	refCount := map[string]int{}
 	refCmds := map[string]map[int]bool{}
 	for j := 0; j < ncmds; j++ {
-		cm := genCmd(t, defs)
+		cm := genCmd(t, defs, ctx)
 		cmds = append(cmds, cm)
 		per := map[string]int{}
 		for _, n := range cm.Refs {
